@@ -58,6 +58,9 @@ package x25519
 //@   ensures (len(scalar) != 32 || len(point) != 32) ==> result1 != nil
 //@   ensures result1 != nil ==> result0 == nil
 //@   ensures result1 == nil ==> (len(result0) == 32 && bytesOf(result0[0:32]) == bytesOf(dst[0:32]))
+//@   ensures (len(scalar) == 32 && len(point) == 32 && !sameslice(point, Basepoint)) ==> ((result1 != nil) == (x25519(le(scalar[0:32]), le(point[0:32])) == 0))
+//@   ensures (result1 == nil && !sameslice(point, Basepoint)) ==> le(result0[0:32]) == x25519(le(scalar[0:32]), le(point[0:32]))
+//@   ensures (len(scalar) == 32 && len(point) == 32 && sameslice(point, Basepoint)) ==> (result1 == nil && le(result0[0:32]) == montu(mulB(clampv(le(scalar[0:32])))))
 
 //@ func X25519(scalar, point)
 //@   inline x25519
@@ -67,3 +70,6 @@ package x25519
 //@   ensures (len(scalar) != 32 || len(point) != 32) ==> result1 != nil
 //@   ensures result1 != nil ==> result0 == nil
 //@   ensures result1 == nil ==> (len(result0) == 32 && fresh(result0))
+//@   ensures (len(scalar) == 32 && len(point) == 32 && !sameslice(point, Basepoint)) ==> ((result1 != nil) == (x25519(le(scalar[0:32]), le(point[0:32])) == 0))
+//@   ensures (result1 == nil && !sameslice(point, Basepoint)) ==> le(result0[0:32]) == x25519(le(scalar[0:32]), le(point[0:32]))
+//@   ensures (len(scalar) == 32 && len(point) == 32 && sameslice(point, Basepoint)) ==> (result1 == nil && le(result0[0:32]) == montu(mulB(clampv(le(scalar[0:32])))))
